@@ -77,7 +77,9 @@ func (frame Frame) Log(line *fastlog.Line) *fastlog.Line {
 	line.IP("dstIP", frame.DstAddr.IP)
 	line.Int("payloadlen", len(frame.Payload()))
 	if frame.Host != nil {
+		frame.Host.MACEntry.Row.RLock() // Capture and Release write the flag under the row lock
 		line.Bool("captured", frame.Host.MACEntry.Captured)
+		frame.Host.MACEntry.Row.RUnlock()
 	}
 	return line
 }
